@@ -48,6 +48,12 @@ def desugar(loc, relfile, fn_paths, rules):
                     rewrites.append((v["call"][0], v["call"][1], new))
                     records.append({"fn": fp, "rule": "D7 RECV.map_err(|_| { S; E })  =>  match RECV { Ok(v) => Ok(v), Err(_) => { S; Err(E) } }",
                                     "original": src[v["call"][0]:v["call"][1]], "rewritten": new})
+                elif v["rule"] == "D8":
+                    name = src[v["name"][0]:v["name"][1]]
+                    new = "std::cmp::" + name
+                    rewrites.append((v["func"][0], v["func"][1], new))
+                    records.append({"fn": fp, "rule": "D8 i32::max(A, B) / i32::min(A, B)  =>  std::cmp::max(A, B) / std::cmp::min(A, B)",
+                                    "original": src[v["func"][0]:v["func"][1]], "rewritten": new})
                 elif v["rule"] == "D4":
                     recv = src[v["recv"][0]:v["recv"][1]]
                     pat = src[v["pat"][0]:v["pat"][1]]
